@@ -121,6 +121,68 @@ Proof.
     + apply uni_branch.
 Qed.
 
+Lemma uni_branch_c h ha lvl loop headers entries exiting exits doms bnames vnames strict :
+  let c := uni_col_of h ha lvl loop headers entries exiting exits doms bnames vnames in
+  c = 1 \/ c = 3 \/ c = 4 ->
+  exists F : Z -> Prop, forall n e e' ds,
+    (exists b p, find h n = Some b /\ n_kind b = KOrig p) -> E F e e' ->
+    CTrace h (resolve_flat h) strict n e ds -> CTrace ha (resolve_flat ha) strict n e' ds.
+Proof.
+  cbv zeta. intros H.
+  assert (H4 : uni_col_of h ha lvl loop headers entries exiting exits doms bnames vnames = 4).
+  { destruct (uni_col_cases h ha lvl loop headers entries exiting exits doms bnames vnames) as [E0|[E0|[E0|E0]]];
+      destruct H as [H|[H|H]]; rewrite E0 in H; try discriminate; exact E0. }
+  destruct (uni_col_sound_c h ha lvl loop headers entries exiting exits doms bnames vnames strict H4) as [v [bv Hthm]].
+  exists (Fu v bv). exact Hthm.
+Qed.
+
+Theorem helper_col_sound_c h ha lvl loop headers entries exiting exits doms bnames vnames strict :
+  let c := helper_col_of h ha lvl loop headers entries exiting exits doms bnames vnames in
+  c = 1 \/ c = 3 \/ c = 4 ->
+  exists F : Z -> Prop, forall n e e' ds,
+    (exists b p, find h n = Some b /\ n_kind b = KOrig p) -> E F e e' ->
+    CTrace h (resolve_flat h) strict n e ds -> CTrace ha (resolve_flat ha) strict n e' ds.
+Proof.
+  cbv zeta. unfold helper_col_of. destruct (level_graph h lvl) as [g1|] eqn:Hlg; [|intros [H|[H|H]]; discriminate].
+  destruct (level_graph_collect h lvl g1 Hlg) as [nl [Hl HLG]].
+  destruct (rot_args g1 loop headers exiting exits doms bnames vnames) as [a|].
+  - (* plain rotation *)
+    unfold plain_col_of.
+    destruct (walk_pre_rot h lvl TOP (ra_hd a) (ra_exits a) (ra_todo a) (ra_isback a) (ra_latch a) (ra_sexit a)
+                           (ra_ev a) (ra_bv a) (ra_names a)) eqn:Hpre; [|intros [H|[H|H]]; discriminate].
+    destruct (loop_rotate g1 (ra_hd a) [ra_hd a] (ra_exits a) (ra_todo a) false [] (ra_isback a)
+                          (ra_latch a) (ra_sexit a) (ra_ev a) (ra_bv a) (ra_names a)) as [g1'| |] eqn:Hrot;
+      try (intros [H|[H|H]]; discriminate).
+    destruct (walks_cert h (write_back h lvl g1') ha) eqn:Hc; [|intros [H|[H|H]]; discriminate]. intros _.
+    destruct (loop_rotate_h_keeps_ctrace_b h lvl TOP (ra_hd a) (ra_exits a) (ra_todo a) (ra_isback a) (ra_latch a) (ra_sexit a)
+                (ra_ev a) (ra_bv a) (ra_names a) strict Hpre) as [nl' [g1a [g1b [Hl' [HLG' [Hrot' Hthm]]]]]].
+    rewrite Hl in Hl'. injection Hl' as <-. rewrite HLG in HLG'. injection HLG' as <-.
+    rewrite Hrot in Hrot'. injection Hrot' as <-.
+    exists (Fl (ra_ev a) (ra_bv a)). exact (ctrace_cert_sound h _ ha strict _ Hthm Hc).
+  - destruct (early_block g1 loop headers exiting) as [bb|].
+    + destruct headers as [|hd [|h1 hr]].
+      * apply uni_branch_c.
+      * (* the early return *)
+        unfold early_col_of. rewrite Hl.
+        destruct (dpop g1 bb) as [[b g2]|] eqn:Hpop; [|intros [H|[H|H]]; discriminate].
+        destruct (declare_backedge b hd) as [b1|] eqn:Hdecl; [|intros [H|[H|H]]; discriminate]. cbv zeta.
+        destruct (is_region nl && nodupb (ekeys (dset g2 bb b1)) && is_none (efind g1 lvl) &&
+                  forallb (fun n => is_region n || forallb (resolves h) (n_jt n)) h &&
+                  walks_cert h (write_back h lvl (dset g2 bb b1)) ha) eqn:Hall; [|intros [H|[H|H]]; discriminate].
+        intros _. apply andb_true_iff in Hall as [Hall Hc]. apply andb_true_iff in Hall as [Hall Hres].
+        apply andb_true_iff in Hall as [Hall Hlv]. apply andb_true_iff in Hall as [Hlr Hnd].
+        exists F0. apply (ctrace_cert_sound h (write_back h lvl (dset g2 bb b1)) ha strict F0); [|exact Hc].
+        intros n e e' ds Hn He.
+        apply (early_return_keeps_ctrace_e h lvl nl g1 g2 bb hd b b1 strict Hl Hlr HLG Hpop Hdecl); auto.
+        -- apply nodupb_sound. exact Hnd.
+        -- destruct (efind g1 lvl); [discriminate|reflexivity].
+        -- intros x n0 t Hx Hreg Ht. pose proof (find_forallb h _ Hres x n0 Hx) as Hb. cbv beta in Hb. rewrite Hreg in Hb.
+           cbn [orb] in Hb. rewrite forallb_forall in Hb. specialize (Hb t Ht). unfold resolves in Hb.
+           destruct (enter_flat h (S (length h)) t); [discriminate|discriminate].
+      * apply uni_branch_c.
+    + apply uni_branch_c.
+Qed.
+
 Definition helper_col (rows : list (list Z)) : Z :=
   let '(br, ar, op, st, dm) := split_lh rows in
   match decode br, decode ar, op with
